@@ -27,6 +27,32 @@ def run_property(pid: str, tier: str, repo: str) -> Report:
         rep.error(f"analyser crashed: {type(e).__name__}: {e} @ {tb[-3].strip() if len(tb) >= 3 else ''}")
         if os.environ.get('SA_DEBUG'):
             traceback.print_exc()
+    if tier == 'thorough' and not os.environ.get('SA_NO_ALIAS'):
+        # second view of the same sources: without the alias normalisation (sa/inline.py normalize_aliases).  A verdict must
+        # not depend on the normalisation: every violation or error of the second view is added to the report.
+        os.environ['SA_NO_ALIAS'] = '1'
+        try:
+            rep2 = Report(pid, tier, repo)
+            try:
+                prog2 = Program(repo)
+                importlib.import_module(f"sa.props.{pid.lower()}").run(prog2, rep2, tier)
+            except AnalysisError as e:
+                rep2.error(str(e))
+            except Exception as e:
+                rep2.error(f"analyser crashed (raw view): {type(e).__name__}: {e}")
+            have = {o.key_hash() for o in rep.obligations if not o.ok}
+            extra = [o for o in rep2.obligations if not o.ok and o.key_hash() not in have]
+            for o in extra:
+                o.detail = '[raw view, aliases not read through] ' + o.detail
+                rep.obligations.append(o)
+            for e in rep2.errors:
+                if e not in rep.errors:
+                    rep.errors.append('[raw view] ' + e)
+            rep.analysed['second_view_obligations'] = len(rep2.obligations)
+            rep.notes.append(f"thorough tier: the rules were evaluated on two views of the program (selector aliases read through / left as written): "
+                             f"{len(rep.obligations) - len(extra)} + {len(rep2.obligations)} obligations, {len(extra)} failing only in the second view")
+        finally:
+            del os.environ['SA_NO_ALIAS']
     return rep
 
 
